@@ -164,6 +164,9 @@ func VerifC16ExecErrors1()      { c16Exec(1, true, 2) }
 func VerifC16ExecErrors2()      { c16Exec(2, false, 3) }
 func VerifC16ExecErrors2Modes() { c16Exec(2, true, 3) }
 
+// thorough: one failing resolver, every mode combination, wider unit-order choice
+func VerifC16ExecErrors1Wide() { c16Exec(1, true, 3) }
+
 // VerifC16Sanitize: only errors marked safe are forwarded verbatim.
 func VerifC16Sanitize() {
 	var err error
